@@ -94,8 +94,8 @@ Lemma homodyne_select_scaled s : homodyne_select F c' (lam * s) = homodyne_selec
 Proof. open_sc. unfold homodyne_select. rewrite S1. field. split; assumption. Qed.
 Lemma homodyne_result_scaled v : homodyne_result F c' v = lam * homodyne_result F c v.
 Proof. open_sc. unfold homodyne_result. rewrite S1. ring. Qed.
-Lemma msgate_result_scaled v : msgate_result F c' v = msgate_result F c v / lam.
-Proof. open_sc. unfold msgate_result. rewrite S1. field. split; assumption. Qed.
+Lemma msgate_result_scaled v : msgate_result F c' v = lam * msgate_result F c v.
+Proof. open_sc. unfold msgate_result. rewrite S1. ring. Qed.
 
 Lemma gauss_V_scaled V : gauss_V F c' (map (map (fun v => lam * lam * v)) V) = gauss_V F c V.
 Proof.
@@ -250,7 +250,7 @@ Proof. revert l; induction n; intros [|x l]; simpl; try reflexivity. apply IHn. 
 
 Lemma step_rescale o b ds :
   step F B halfpi gauss_id c' bk (rescale F lam o) b ds
-  = let '(b', ds', out) := step F B halfpi gauss_id c bk o b ds in (b', ds', map (scale_outcome_impl F lam) out).
+  = let '(b', ds', out) := step F B halfpi gauss_id c bk o b ds in (b', ds', map (scale_outcome F lam) out).
 Proof.
   destruct o as [id ps ms|x k dg|p k dg|g k dg|V r ms|V r ms|phi k sel|ps k]; simpl.
   - reflexivity.
@@ -282,51 +282,13 @@ Qed.
 
 Lemma run_rescale p : forall b ds,
   run F B halfpi gauss_id c' bk (map (rescale F lam) p) b ds
-  = (fst (run F B halfpi gauss_id c bk p b ds), map (scale_outcome_impl F lam) (snd (run F B halfpi gauss_id c bk p b ds))).
+  = (fst (run F B halfpi gauss_id c bk p b ds), map (scale_outcome F lam) (snd (run F B halfpi gauss_id c bk p b ds))).
 Proof.
   induction p as [|o p IH]; intros b ds; simpl; [reflexivity|].
   rewrite step_rescale.
   destruct (step F B halfpi gauss_id c bk o b ds) as [[b' ds'] out].
   rewrite IH. destruct (run F B halfpi gauss_id c bk p b' ds') as [b'' outs]. simpl.
   rewrite map_app. reflexivity.
-Qed.
-
-(* outcomes of a program without single-shot MSgate are all homodyne outcomes *)
-Definition homodyne_only (outs : list (outcome (K:=K))) : Prop :=
-  forall o, In o outs -> exists v, o = OHomodyne v.
-
-Lemma step_no_ms_outcomes o b ds :
-  is_ms o = false -> homodyne_only (snd (step F B halfpi gauss_id c bk o b ds)).
-Proof.
-  destruct o; simpl; intros H o' Hin; try (destruct Hin; fail); try discriminate.
-  destruct (draw1 F ds) as [d ds']. destruct (bk_homodyne B bk phi k _ d b) as [b' v]. simpl in Hin.
-  destruct Hin as [<-|[]]. eexists; reflexivity.
-Qed.
-
-Lemma run_no_ms_outcomes p : forall b ds,
-  forallb (fun o => negb (is_ms o)) p = true -> homodyne_only (snd (run F B halfpi gauss_id c bk p b ds)).
-Proof.
-  induction p as [|o p IH]; intros b ds H; simpl in *.
-  - intros o' [].
-  - apply andb_prop in H as [H1 H2]. apply negb_true_iff in H1.
-    pose proof (step_no_ms_outcomes o b ds H1) as Hs'.
-    destruct (step F B halfpi gauss_id c bk o b ds) as [[b' ds'] out]. simpl in Hs'.
-    specialize (IH b' ds' H2). destruct (run F B halfpi gauss_id c bk p b' ds') as [b'' outs]. simpl in *.
-    intros o' Hin. apply in_app_or in Hin as [Hin|Hin]; [apply Hs'|apply IH]; exact Hin.
-Qed.
-
-Lemma scale_outcome_agree outs :
-  homodyne_only outs -> map (scale_outcome_impl F lam) outs = map (scale_outcome F lam) outs.
-Proof.
-  intro H. apply map_ext_in. intros o Hin. destruct (H o Hin) as [v ->]. reflexivity.
-Qed.
-
-Lemma run_rescale_no_ms p b ds :
-  forallb (fun o => negb (is_ms o)) p = true ->
-  run F B halfpi gauss_id c' bk (map (rescale F lam) p) b ds
-  = (fst (run F B halfpi gauss_id c bk p b ds), map (scale_outcome F lam) (snd (run F B halfpi gauss_id c bk p b ds))).
-Proof.
-  intro H. rewrite run_rescale. rewrite (scale_outcome_agree _ (run_no_ms_outcomes p b ds H)). reflexivity.
 Qed.
 
 Lemma state_means_scaled m2 : state_means F c' m2 = map (fun v => lam * v) (state_means F c m2).
